@@ -36,12 +36,12 @@ KNOWN_RACES = [
               "`x: int & >5` race (write/write and write/read; adt.MatchBuiltinRange reads the same slice); minimal witness "
               "corpus/C19/f10_conjunction_sort.cue: program `x: int & >5`, yaml.Encode(v) (= v.Syntax(cue.Concrete(true))) from 8 goroutines")},
     {"id": "F11",
-     "match": lambda rep: re.search(r"adt\.\(\*Vertex\)\.Finalize\(\)\n[^\n]*\n\s*cuelang\.org/go/(cue\.\(\*Iterator\)\.Next|cue\.Value\.LookupPath|"
-                                    r"internal/core/subsume\.|internal/core/export\.)", rep) is not None,
+     "match": lambda rep: re.search(r"adt\.\(\*Vertex\)\.Finalize\(\)\n[^\n]*\n\s*cuelang\.org/go/(cue\.|internal/core/subsume\.|internal/core/export\.)", rep) is not None,
      "text": ("data race on the UNCHANGED tree [finding F11]: vertices are NOT always finalized before being shared - the root Finalize leaves "
               "(a) pattern-constraint vertices and (b) the arcs below a field whose unification failed unfinished, and API calls finalize them lazily "
               "ON THE SHARED VERTEX with the caller's own OpContext: cue/types.go (*Iterator).Next `pattern.Constraint.Finalize(i.ctx)` / `arc.Finalize`, "
-              "cue/query.go Value.LookupPath `a.Finalize(ctx)` (same pattern in internal/core/subsume/vertex.go and internal/core/export/expr.go); two "
+              "`(*Iterator).Selector`, cue/query.go Value.LookupPath `a.Finalize(ctx)`, cue/context.go manifest (Kind/Err/... of the looked-up value); same pattern in "
+              "internal/core/subsume/vertex.go and internal/core/export/expr.go; signature: adt.(*Vertex).Finalize called directly from package cue / subsume / export; two "
               "goroutines then evaluate one vertex with two OpContexts (writes to v.state, status, BaseValue, Arcs). Minimal witnesses: "
               "corpus/C19/f11a_pattern_finalize.cue (`[=~\"^z\"]: int, a: 1`, Fields(cue.Patterns(true)) from 8 goroutines) and "
               "corpus/C19/f11b_failed_field_finalize.cue (`f2: {name: {e: 3, sub: int}, name: string}`, LookupPath(f2.name.sub) / LookupPath(f2.name.e))")},
@@ -527,7 +527,7 @@ def run(ctx):
     vm = vm_crosscheck(ctx, exe)
     phase["vm_crosscheck"] = round(time.time() - t1, 1)
     t1 = time.time()
-    nmodels = 20 if quick else 150
+    nmodels = 20 if quick else 80
     minfo, cases, impl, model, mraces = run_models(ctx, harness, exe, nmodels)
     phase["models"] = round(time.time() - t1, 1)
     kinds = collections.Counter()
@@ -571,7 +571,7 @@ def run(ctx):
 
     # 2. direct exploration of the property under the race detector
     if quick:
-        nproc, rounds, deadline = 6, 14, 42
+        nproc, rounds, deadline = 6, 14, 36
     else:
         nproc, rounds, deadline = 8, 400, 560
     t1 = time.time()
@@ -591,7 +591,7 @@ def run(ctx):
         src = open(os.path.join(cdir, nm)).read()
         mcalls = re.search(r"(?m)^// calls: (.*)$", src)
         calls = mcalls.group(1).strip() if mcalls else "describe|syntax none|json"
-        wrc, wout, wraces, werr = run_witness(ctx, harness, src, calls, reps=10 if quick else 40)
+        wrc, wout, wraces, werr = run_witness(ctx, harness, src, calls, reps=4 if quick else 30)
         wraces_total += len(wraces)
         mm = re.search(r"mismatches=(\d+)", wout)
         nm_mism = int(mm.group(1)) if mm else -1
